@@ -244,6 +244,39 @@ impl Property for C17 {
                 o.labels.push("partially-selected-fn".into());
             }
         }
+        // diagnostics only for selected code: a width / blank report must not point into an item
+        // that does not intersect the selection
+        if let Some(out_items) = out_items.as_ref() {
+            if out_items.len() == items.len() {
+                for e in out.errors.iter().filter(|e| e.kind == "LineOverflow" || e.kind == "TrailingWhitespace") {
+                    for (idx, oi) in out_items.iter().enumerate() {
+                        let ospan = lines_of(&out.text, oi.lo, oi.hi);
+                        if ospan.0 <= e.line && e.line <= ospan.1 {
+                            let ispan = lines_of(src, items[idx].lo, items[idx].hi);
+                            if !intersects(&ranges, ispan) {
+                                // known class: the selection is applied to output line numbers;
+                                // when selected code above changed its line count, lines of an
+                                // unselected item can fall into the numeric range
+                                let moved = ospan.0 != ispan.0;
+                                if moved && intersects(&ranges, (e.line, e.line)) {
+                                    if !judge_known {
+                                        if !o.excluded.iter().any(|x| x.contains("output-line-numbers")) {
+                                            o.excluded.push("known-class:selection-applied-to-output-line-numbers".into());
+                                        }
+                                        continue;
+                                    }
+                                    return fail("diagnostic-outside-selection/output-line-numbers", format!("{} reported at output line {} inside unselected item {idx} (input lines {ispan:?}, output lines {ospan:?})", e.kind, e.line));
+                                }
+                                return fail("diagnostic-outside-selection", format!("{} reported at output line {} inside item {idx}, which does not intersect the selection (input lines {ispan:?})", e.kind, e.line));
+                            }
+                        }
+                    }
+                }
+                if case["diagnostics"].as_bool() == Some(true) {
+                    o.labels.push("diagnostics-checked".into());
+                }
+            }
+        }
         o.nontrivial = selected_any && unselected_unformatted;
         o
     }
